@@ -20,6 +20,17 @@ def jobs(tier):
                               timeout=600, min_props=2, unwind=2))
     # the opacity *flags* (compute_image_info: IS_OPAQUE / SAMPLES_OPAQUE only if every contributing sample has alpha 1):
     # harness/C09/info.c, written by the image helper
+    # (lead) route D: the gradient stop loop of compute_image_info for ANY number of stops
+    for t in ("LINEAR", "CONICAL", "RADIAL"):
+        tpl = {"assigns": "i, flags",
+               "invariants": "0 <= i && i <= image->gradient.n_stops && (flags & 8192u ? (g_k < i ==> image->gradient.stops[g_k].color.alpha == 65535) : 1) && "
+                             "((flags | 8192u) == (__CPROVER_loop_entry(flags) | 8192u))",
+               "decreases": "image->gradient.n_stops - i", "vars": ["i", "flags", "image", "g_k=g_k"], "headers": []}
+        js.append(Job("infoD.opaque.%s.any_stop_count" % t.lower(), "C09/info_d.c", route="D", enforce="compute_image_info",
+                      loops={"compute_image_info": [tpl]}, defines={"VC_TYPE": t}, cbmc_flags=["--no-signed-overflow-check"],
+                      kind="proof", functions=["compute_image_info"], timeout=900, min_props=10,
+                      domain="enforced function contract + loop invariant: gradient with any 1 <= n_stops <= 2^20, no transform: IS_OPAQUE => the "
+                             "ghost stop is opaque, repeat != NONE, no component alpha, no convolution filter; assigns flags and format code only"))
     try:
         import C09_info
         js += C09_info.jobs(tier)
